@@ -30,6 +30,7 @@ type cresp struct {
 	Exts       string `json:"exts"`
 	Cut        bool   `json:"cut"`
 	VerForm    int    `json:"verForm"`
+	Veto       bool   `json:"veto"` // the response carries X-Veto, which the dialer's OnHeader callback refuses
 	statusTok  string
 }
 
@@ -194,6 +195,9 @@ func (r *cresp) render(rng *rand.Rand, key string, reqProtos []string, reqExts [
 	if rng.Intn(2) == 0 {
 		lines = append(lines, "X-Other: value", "Server: verif")
 	}
+	if r.Veto {
+		lines = append(lines, "X-Veto: yes")
+	}
 	rng.Shuffle(len(lines), func(i, j int) { lines[i], lines[j] = lines[j], lines[i] })
 	if len(sentExts) == 2 && r.Exts == "offeredparams" {
 		// two extension header lines: what the server "sent" is in wire order
@@ -252,6 +256,13 @@ func c10(c *ctx) {
 			d.Extensions = []httphead.Option{o1, o2}
 		}
 		reqExts := []string{"permessage-deflate", "x-foo"}
+		// an application callback that looks at the other headers and may refuse the response
+		d.OnHeader = func(k, v []byte) error {
+			if string(k) == "X-Veto" {
+				return fmt.Errorf("refused by OnHeader")
+			}
+			return nil
+		}
 		var sentProto string
 		var sentExts []string
 		pc := &peerConn{chunk: chunks[(rot/5)%len(chunks)], trailing: trailingFrames[(rot/3)%len(trailingFrames)]}
@@ -349,6 +360,12 @@ func c10(c *ctx) {
 						r := base
 						r.Upgrade, r.Connection, r.Accept, r.Protocol, r.Exts = up, co, ac, pr, ex
 						respCase(fmt.Sprintf("hdr/%s/%s/%s/%s/%s", up, co, ac, pr, ex), r)
+						if up == "ok" && co == "ok" && (ac == "ok" || k%7 == 0) {
+							r.Veto = true
+							for rep := 0; rep < 3; rep++ { // (the header order is drawn from the key)
+								respCase(fmt.Sprintf("veto/%s/%s/%s/%s/%s/%d", up, co, ac, pr, ex, rep), r)
+							}
+						}
 					}
 				}
 			}
